@@ -535,6 +535,96 @@ fn cmp_faults(g: &mut Grid) {
     }
 }
 
+// ---------------------------------------------------------------- panicking destructors
+/// The last handle is released while the k-th payload destructor panics: the panic propagates,
+/// every value is still destroyed exactly once and the block still goes back to the allocator.
+fn drop_faults(g: &mut Grid) {
+    type Th = ThinArc<Tracked<12>, Tracked<6>>;
+    for kind in ["Arc<T>", "Arc<[T;3]>", "Arc<HeaderSlice<H,[T;2]>>", "ThinArc<H,T;2>", "OffsetArc<T>", "ArcUnion(first)", "ArcUnion(second)", "UniqueArc<T>", "Arc<dyn>", "try_unwrap then drop value"] {
+        let nvals = match kind {
+            "Arc<[T;3]>" | "Arc<HeaderSlice<H,[T;2]>>" | "ThinArc<H,T;2>" => 3,
+            _ => 1,
+        };
+        for k in 0..=nvals {
+            for shared_first in [false, true] {
+                let case = format!("last release of {} with the destructor of value #{} panicking{}", kind, k, if shared_first { " (after a co-owner was released normally)" } else { "" });
+                vrt::begin_execution();
+                g.case(format!("droppanic|{}|{}|{}", kind, k, shared_first), || case.clone());
+                let mk3 = || Script::new(vec![Tracked::<6>::new(1), Tracked::<6>::new(2)], Regime::Exact);
+                trait Any2 {}
+                impl Any2 for Tracked<6> {}
+                enum B {
+                    A(Arc<Tracked<6>>),
+                    S(Arc<[Tracked<6>]>),
+                    F(Arc<HeaderSlice<Tracked<12>, [Tracked<6>]>>),
+                    T(Th),
+                    O(OffsetArc<Tracked<6>>),
+                    U1(ArcUnion<Tracked<6>, u8>),
+                    U2(ArcUnion<u8, Tracked<6>>),
+                    X(UniqueArc<Tracked<6>>),
+                    D(Arc<dyn Any2>),
+                }
+                let h = cap(|| match kind {
+                    "Arc<T>" | "try_unwrap then drop value" => B::A(Arc::new(Tracked::new(1))),
+                    "Arc<[T;3]>" => B::S(Arc::from(vec![Tracked::new(1), Tracked::new(2), Tracked::new(3)])),
+                    "Arc<HeaderSlice<H,[T;2]>>" => B::F(Arc::from_header_and_iter(Tracked::new(0), mk3())),
+                    "ThinArc<H,T;2>" => B::T(ThinArc::from_header_and_iter(Tracked::new(0), mk3())),
+                    "OffsetArc<T>" => B::O(Arc::into_raw_offset(Arc::new(Tracked::new(1)))),
+                    "ArcUnion(first)" => B::U1(ArcUnion::from_first(Arc::new(Tracked::new(1)))),
+                    "ArcUnion(second)" => B::U2(ArcUnion::from_second(Arc::new(Tracked::new(1)))),
+                    "UniqueArc<T>" => B::X(UniqueArc::new(Tracked::new(1))),
+                    _ => B::D(unsafe { Arc::from_raw(Arc::into_raw(Arc::new(Tracked::<6>::new(1))) as *const dyn Any2) }),
+                });
+                if shared_first {
+                    cap(|| match &h {
+                        B::A(x) => drop(x.clone()),
+                        B::S(x) => drop(x.clone()),
+                        B::F(x) => drop(x.clone()),
+                        B::T(x) => drop(x.clone()),
+                        B::O(x) => drop(x.clone()),
+                        B::U1(x) => drop(x.clone()),
+                        B::U2(x) => drop(x.clone()),
+                        B::D(x) => drop(x.clone()),
+                        B::X(_) => {}
+                    });
+                }
+                let created = track::next_id_peek() - 1;
+                track::arm_drop_panic(k);
+                let r = catch(|| {
+                    cap(|| match h {
+                        B::A(x) if kind == "try_unwrap then drop value" => drop(Arc::try_unwrap(x).ok().expect("sole owner")),
+                        other => drop(other),
+                    })
+                });
+                track::arm_drop_panic(0);
+                if r.is_err() != (k != 0) {
+                    g.fail("unexpected-outcome", &case, format!("panicked={} (armed destructor #{})", r.is_err(), k));
+                }
+                let mut d = track::drops_since(0);
+                d.sort();
+                let before = d.len();
+                d.dedup();
+                if d.len() != before {
+                    g.fail("double-drop", &case, format!("a value was destroyed more than once: {:?}", track::drops_since(0)));
+                }
+                if d.len() != created as usize {
+                    g.fail("not-destroyed", &case, format!("{} values were created, {} destroyed: a panicking destructor must not stop the others from running", created, d.len()));
+                }
+                let live = arena::live_blocks();
+                if !live.is_empty() {
+                    g.fail("leak-after-drop-panic", &case, format!("the allocation was not returned although its last handle is gone: {:?}", live));
+                }
+                for e in arena::errors_since(0) {
+                    g.fail("allocator-error", &case, format!("{:?}", e));
+                }
+                for p in track::perr_since(0) {
+                    g.fail("poison-access", &case, p);
+                }
+            }
+        }
+    }
+}
+
 // ---------------------------------------------------------------- allocation failure (child processes)
 const ALLOC_CTORS: &[&str] = &["Arc::new", "Arc::from(Box)", "from_header_and_iter", "from_header_and_slice", "from_header_and_vec", "ThinArc::from_header_and_iter", "Arc<[T]>::from(Vec)", "from_iter_inexact", "from_iter_exact", "new_uninit", "new_uninit_slice", "UniqueArc::new_uninit", "from_header_and_str", "Arc<str>::from(String)", "make_mut_shared", "unwrap_or_clone_shared", "from_header_and_uninit_slice"];
 
@@ -673,7 +763,9 @@ pub fn run(tier: &str) -> Vec<Grid> {
     closure_faults(&mut c);
     let mut d = Grid::new("c07.cmp", "PartialEq / PartialOrd / Ord / Hash / Debug / Display of the payload panicking at each k-th call, through every handle kind");
     cmp_faults(&mut d);
+    let mut dp = Grid::new("c07.drop", "last release through every handle kind x the k-th payload destructor panicking (k = 0..=values): the panic propagates once, every value is still destroyed exactly once, the allocation is still returned");
+    drop_faults(&mut dp);
     let mut e = Grid::new("c07.alloc", "each constructor with each of its in-window allocations refused, one child process per (constructor, k)");
     alloc_faults(&mut e);
-    vec![a, b, c, d, e]
+    vec![a, b, c, d, dp, e]
 }
